@@ -8,7 +8,7 @@ ENTRY = {
                 "B: seeded long histories over the real constants (5 categories, 1 h .. 90 d, daily rendering, gaps of thousands of hours) validated by TraceStats.tla; "
                 "concurrent Update/flush/GET histories (inv/res stamps, no wall clock) for which TraceStatsConc.tla lets TLC infer a linearisation; same driver under -race.",
         "design_ref": "DESIGN.md section 4 C09",
-        "note": "Trusted: TLC, conc()/abs()/compare() of zz_verif_c09_test.go. 'Hour that was current' = hour observed by the module (id of the current unit; the flusher polls the clock). "
+        "note": "Trusted: TLC, conc()/abs()/compare() of zz_verif_c09_test.go. The absolute clock position is a seeded dimension (0, 1, limit-1, limit, limit+1, 2*limit, ~470000); open finding restart-below-limit-wipes-units. 'Hour that was current' = hour observed by the module (id of the current unit; the flusher polls the clock). "
                 "Hours that were outside the window once and re-enter after the limit is raised may or may not be reported. Daily series: only sum <= totals. "
                 "Top lists, average processing time and upstream statistics are inputs only, not compared. Scratch bbolt files use NoSync.",
         "technique": "TLA+ spec model-checked by TLC; edge-covering replay of TLC's transition graph into real code + TLC trace validation (sequential and linearisation inference) + race detector",
